@@ -29,6 +29,12 @@ def run(ctx):
         ctx.harness(['p_nested2'])
         L.nested2_sweep(ctx, ('outcome', 'panic'))
     L.histories(ctx, 500 if ctx.tier == 'quick' else 5000)
+    # the buffer as its users see it: the info-carrying iterators' store / load around the channel (one buffer per signal),
+    # a delivery at every instruction boundary of a draining consumer: nothing discarded below five outstanding, nothing
+    # left sitting in the buffer while the consumer is told it is empty
+    import ls_iter
+    if ctx.harness(['p_nested_iter']):
+        ls_iter.instr_sweep(ctx, ('LOST', 'CRASH'), configs=[('r', 'p', '-'), ('r', 'p', 's'), ('r', 'p', 'ss'), ('r', 'w', 's'), ('r', 'f', 's')], key='instruction_sweep_through_exfiltrator')
     ctx.coverage['rule_nested'] = ('instruction-level sweep (trap flag): send/recv interrupted after every instruction by a handler running '
                                    'send/recv to completion, fill 0-5; outcomes (returns, drained values, drop counts, panic, hang) against the '
                                    'outcomes of the SC model over all step boundaries')
@@ -41,4 +47,9 @@ def run(ctx):
 
 
 def replay(ctx, path):
+    import json
+    case = json.load(open(path))
+    if case.get('case', {}).get('instr_sweep'):
+        import ls_iter
+        return ls_iter.instr_replay(ctx, case['case'], ('LOST', 'CRASH'))
     return L.replay_case(ctx, path, [L.mon_c06])
